@@ -6,6 +6,7 @@ import Holpy.C10.ProofsIntOrdBody
 import Holpy.C10.ProofsIntClosure
 import Holpy.C10.ProofsIntIdem
 import Holpy.C10.ProofsIntInjSem
+import Holpy.C10.ProofsIntEqSign
 /-
 C10 — property theorems about the integer Conv normaliser (`data/integer.py`: `simp_full`,
 `int_norm_conv`, `int_norm_eq`).
@@ -161,19 +162,25 @@ example : fragI (.mul (.add (.atom 0 1) (.atom 1 1)) (.add (.atom 0 1) (.atom 1 
       = intNorm (.add (.pow (.atom 1 1) 2) (.add (.mul (.num 2) (.mul (.atom 1 1) (.atom 0 1))) (.pow (.atom 0 1) 2))) := by
   decide
 
-/-- Canonicity of `int_norm_eq` under moving terms across `=`: two equations whose differences
-`lhs - rhs` have the same value under every valuation get the identical normalised equation.
-PARTIAL (`int_norm_eq_canonical` also asks for invariance under an overall sign, `a = b` against
-`-a = -b` or `b = a`): missing is that `norm_mult_polynomials` by `-1` negates every coefficient in
-place, so that the first-coefficient test of `int_norm_eq` picks the same representative for both
-signs; everything else (closure, canonicity of `simp_full`) is available. -/
-theorem int_norm_eq_canonical_partial (a b a' b' : IExp)
-    (h : fragI (.sub a b) (.sub a' b') = true)
-    (hv : ∀ ρ, evalI ρ a - evalI ρ b = evalI ρ a' - evalI ρ b') :
-    intNormEq a b = intNormEq a' b' := by
-  have := (int_norm_canonical (.sub a b) (.sub a' b') h).1.2 (fun ρ => by simpa [evalI] using hv ρ)
-  unfold intNormEq
-  rw [this]
+/-- Canonicity of `int_norm_eq`: equations that are equivalent by moving terms across `=` (the
+differences `lhs - rhs` have the same value under every valuation) and equations that differ by an
+overall sign (`b = a`, `-a = -b`: the differences are negatives of each other) get the identical
+normalised equation `lhs' = 0` -- on the fragment `fragI` of the two differences, decided by the
+driver. -/
+theorem int_norm_eq_canonical (a b a' b' : IExp) (h : fragI (.sub a b) (.sub a' b') = true) :
+    ((∀ ρ, evalI ρ a - evalI ρ b = evalI ρ a' - evalI ρ b') → intNormEq a b = intNormEq a' b') ∧
+    ((∀ ρ, evalI ρ a' - evalI ρ b' = - (evalI ρ a - evalI ρ b)) → intNormEq a b = intNormEq a' b') := by
+  refine ⟨fun hv => ?_, fun hv => ?_⟩
+  · have := (int_norm_canonical (.sub a b) (.sub a' b') h).1.2 (fun ρ => by simpa [evalI] using hv ρ)
+    unfold intNormEq
+    rw [this]
+  · simp only [fragI, Bool.and_eq_true] at h
+    obtain ⟨⟨⟨pa, pb⟩, wa⟩, wb⟩ := h
+    exact intNormEq_sign _ pa pb wa wb hv
+
+/- i = j + 3 and j + 3 = i (overall sign) -/
+example : intNormEq (.atom 0 1) (.add (.atom 1 1) (.num 3)) = intNormEq (.add (.atom 1 1) (.num 3)) (.atom 0 1) := by
+  decide
 
 /- i + 2 = j  and  i = j - 2 -/
 example : intNormEq (.add (.atom 0 1) (.num 2)) (.atom 1 1) = intNormEq (.atom 0 1) (.sub (.atom 1 1) (.num 2)) := by
